@@ -305,11 +305,13 @@ def triclinic_contract(fname):
         Bsym = [[z3.Real(f"B{i}{k}") for k in range(3)] for i in range(3)]
         RCsym = [z3.Real(f"RC{k}") for k in range(3)]
         state = {}
+        # the frame whose cell is used: the frame itself, or (time-pair kernel) the FIRST frame of the time pair
+        box_frame = (lambda I: SInt(sel(R["times"], 2 * term(I)))) if fname.endswith("_t") else (lambda I: I)
 
         def inner_entry(interp, env):
             """at the start of the pair loop of frame I: the reduction produced lattice-equivalent, lower-triangular vectors"""
             I = interp.getvar(env, "i")
-            v1, v2, v3 = box_cols(R, I)
+            v1, v2, v3 = box_cols(R, box_frame(I))
             b1, b2, b3 = (lanes(interp.getvar(env, n)) for n in ("box_vec1", "box_vec2", "box_vec3"))
             wit = [n for (_t, n) in ctx.ex.path.ghost.get("round_witness", [])]
             if len(wit) < 3:
@@ -415,7 +417,8 @@ def triclinic_contract(fname):
             check_writes(ctx, R, I, J, npairs, store_dist, store_disp, dist_val, disp_vals)
 
         if fname.endswith("_t"):
-            time_loops(ctx, c, fname, R, nf, na, npairs, store_dist, store_disp, per_pair, inner_entry, inner_havoc_extra)
+            _t_loops(ctx, c, fname, R, nf, na, npairs, store_dist, store_disp, True, per_pair, inner_entry=inner_entry, inner_havoc_extra=inner_havoc_extra,
+                     extra_outer=lambda I: lower_triangular_positive(R, box_frame(I)), positive_diagonal=False)
             out = ctx.ccall(fname, Ptr(R["xyz"], 0), Ptr(R["pairs"], 0), Ptr(R["times"], 0), Ptr(R["box"], 0),
                             Ptr(R["dout"], 0) if store_dist else NULL, Ptr(R["disp"], 0) if store_disp else NULL, nf, na, npairs)
         else:
@@ -431,6 +434,9 @@ def triclinic_contract(fname):
 for _case in CASES:  # one registration per case: the cases are explored and discharged in parallel
     contract("C05", "mdtraj/geometry/src/geometry.cpp", "dist_mic_triclinic", cases=[_case], lang="c", replay="dist",
              covers=["pair-iteration", "finished"])(triclinic_contract("dist_mic_triclinic"))
+    # the time-pair variant: atom a from frame t1, atom b from frame t2, the cell of frame t1 (and the cell pointer restored after every time pair)
+    contract("C05", "mdtraj/geometry/src/geometry.cpp", "dist_mic_triclinic_t", cases=[_case], lang="c", replay="dist",
+             covers=["pair-iteration", "finished"])(triclinic_contract("dist_mic_triclinic_t"))
 
 
 # ---------------------------------------------------------------------------------------------
@@ -577,7 +583,8 @@ def distances_core(ctx, case):
 
 # ---------------------------------------------------------------------------------------------
 # time-pair kernels (compute_distances_t): atom a is taken from frame t1, atom b from frame t2, the cell from frame t1
-def _t_loops(ctx, c, fname, R, n_times, n_atoms, n_pairs, store_dist, store_disp, periodic, per_pair):
+def _t_loops(ctx, c, fname, R, n_times, n_atoms, n_pairs, store_dist, store_disp, periodic, per_pair, inner_entry=None, inner_havoc_extra=None, extra_outer=None,
+             positive_diagonal=True):
     I, J = ctx.int("I"), ctx.int("J")
     nt, na, npairs = term(n_times), term(n_atoms), term(n_pairs)
     t1 = lambda i: z3.Select(R["times"].mem0, 2 * term(i))
@@ -609,8 +616,10 @@ def _t_loops(ctx, c, fname, R, n_times, n_atoms, n_pairs, store_dist, store_disp
         interp.setvar(env, "i", I)
         set_ptrs(interp, env, I, 0, False)
         a = [I.t >= 0]
-        if periodic:
+        if periodic and positive_diagonal:
             a += [sel(R["box"], 9 * t1(I) + 4 * k) > 0 for k in range(3)]
+        if extra_outer:
+            a += extra_outer(I)
         return a
 
     def o_inv(interp, env, g):
@@ -622,11 +631,15 @@ def _t_loops(ctx, c, fname, R, n_times, n_atoms, n_pairs, store_dist, store_disp
         set_ptrs(interp, env, interp.getvar(env, "i"), J, True)
         for r in R.values():
             r.writes.clear()
-        return [J.t >= 0]
+        extra = inner_havoc_extra(interp, env) if inner_havoc_extra else []
+        return [J.t >= 0] + list(extra)
 
     def i_inv(interp, env, g):
         i, j = interp.getvar(env, "i"), interp.getvar(env, "j")
-        return ptr_inv(interp, env, i, j, True) + [("0<=j<=n_pairs", z3.And(term(j) >= 0, term(j) <= npairs))]
+        out = ptr_inv(interp, env, i, j, True) + [("0<=j<=n_pairs", z3.And(term(j) >= 0, term(j) <= npairs))]
+        if g.get("entry") and inner_entry:
+            out += inner_entry(interp, env)
+        return out
 
     def i_exit(interp, env, g):
         interp.setvar(env, "j", SInt(npairs))
